@@ -14,8 +14,18 @@ stencil, divide by the cell side"; adjoint modes defined by duality), for
 transposes (and satisfy the Gram identity in the library's own inner
 products); ``derivative`` of the affine constant-padding variant must be the
 zero-padding operator and ``is_linear`` must be ``False`` exactly for the
-affine variants.  One generic data vector per operator additionally checks
-``M x + b`` (and the in-place call protocol when requested).
+affine variants.  ``.adjoint`` is also taken on the affine variant itself
+(it must be refused or be the linear transpose ``M^T``, never an affine map)
+and on its derivative.  One generic data vector per operator additionally
+checks ``M x + b`` (and the in-place call protocol when requested).
+
+Call styles (generated part): operators constructed with every argument by
+keyword / by position / with every argument that equals its documented
+default left out (derived range) / from ``range=`` alone (derived domain);
+``finite_diff`` called by keyword / by position / with defaults left out /
+with a negative axis, on C-, F-ordered, strided and read-only input arrays
+and on a nested list ("array-like"); one argument outside the documented
+set per case must be refused.
 """
 import itertools
 
@@ -43,9 +53,11 @@ LEVEL_TEXT = ('Every (method, pad mode, pad constant, dtype, cell side) '
               'affine and their complete matrix and offset are compared with '
               'a reference written from the documentation; beyond that '
               'sub-space (larger sizes, generic cell sides, boundary-node '
-              'grids, out=, range=) the same decision is made on generated '
-              'configurations. Exploration for the unbounded part (sizes), '
-              'exhaustive for the listed finite part.')
+              'grids, out=, range=, construction and call styles with '
+              'defaults / derived spaces / positional arguments / negative '
+              'axis, input memory layouts) the same decision is made on '
+              'generated configurations. Exploration for the unbounded part '
+              '(sizes), exhaustive for the listed finite part.')
 LEVEL_NOTE = ('Trusted: NumPy long double, the reference vlib/ref/stencils.py '
               '(the adjoint modes are defined there by duality with the '
               'primary modes, the documentation does not describe them), '
@@ -68,7 +80,15 @@ TOLERANCES = {
             'entry, reference in long double',
     'gram': 'max|N^T G_X - G_Y M| <= 64*eps*max(|lhs|,|rhs|) (dim <= 24); '
             'otherwise |<Au,v> - <u,A*v>| <= 64*eps*sqrt(m)*|Au||v| for two '
-            'generic pairs',
+            'generic pairs (A = the linear part, i.e. the derivative, when '
+            'the operator is affine)',
+    'adjoint': 'the matrix of the returned adjoint against ref^T with the '
+               'column sums of |ref| in place of the row sums (Laplacian: '
+               'the cancellation-free row magnitude, its matrix is '
+               'symmetric); offset of the adjoint against 0 with the same '
+               'bound',
+    'array-like': 'as "data", with eps of the dtype NumPy gives the nested '
+                  'list (float64 / complex128)',
 }
 ASSUMPTIONS = [
     'adjoint clause only on grids without boundary nodes (uniformly weighted '
@@ -82,12 +102,33 @@ ASSUMPTIONS = [
     'operators are affine maps (composition of linear NumPy operations); the '
     'matrix and offset therefore decide all inputs',
     'data values are finite, |x| <= ~1e2',
+    'an affine variant (constant padding, pad_const != 0) may refuse to '
+    'give an adjoint (ValueError / NotImplementedError: "not linear and has '
+    'no adjoint" is documented for three of the four classes); what it '
+    'returns instead of refusing must be the linear transpose of its matrix',
+    'a missing range / domain argument means the space on the same grid '
+    '(documented: range == domain, ProductSpace(domain, ndim), range[0] / '
+    'domain[0]); documented defaults are method="forward", '
+    'pad_mode="constant", pad_const=0, dx=1.0',
+    'arguments outside the documented sets (unknown method / pad mode, '
+    'non-positive or NaN dx, out of another shape, axis out of range, spaces '
+    'of the wrong kind or power) must not produce a result; any of '
+    'ValueError, TypeError, IndexError, KeyError, NotImplementedError counts '
+    'as refusal',
 ]
 RULE = ('exhaustive: methods x 10 pad modes x pad_const {0,1,-2.5} x dtype '
         '{float64,complex128,float32} x cell sides x all shapes of the tier; '
         'generated: Hypothesis draws shape (1-3 axes, sizes 1..40), generic '
         'cell sides and origin, boundary nodes, dtype (4), pad constant '
-        '(incl. complex), out= layout, range=, data seed. Non-trivial = the '
+        '(incl. complex), out= layout, range=, data seed, operator '
+        'construction style (explicit / minimal / from-range / positional), '
+        'finite_diff call style (kw / minimal / negaxis / positional), input '
+        'layout (C / F / strided / readonly / nested list), for ndim >= 2 '
+        'cell sides that are nearly but not exactly equal (relative '
+        'difference 8e-8..6e-6) or all tiny (1e-9..9e-9) and one refusal '
+        'probe in half of the cases; the minimal styles bias method, pad '
+        'mode, pad constant and cell side towards the documented defaults so '
+        'that arguments really are left out. Non-trivial = the '
         'oracle was evaluated and (some differentiated axis has size <= 4 or '
         'the mode is an *_adjoint mode or ndim >= 2); distinct by sha1 of '
         'the descriptor')
@@ -109,6 +150,13 @@ EXHAUSTIVE = {
 
 ENUM_DTYPES = ['float64', 'complex128', 'float32']
 ENUM_CONSTS = [0, 1, -2.5]
+# call styles of the generated part (the enumerated part uses the first of
+# each): operator construction, finite_diff call, layout of the input array,
+# one inadmissible argument that has to be refused
+CTOR_STYLES = ('explicit', 'explicit', 'minimal', 'from-range', 'positional')
+FD_CALL_STYLES = ('kw', 'kw', 'minimal', 'negaxis', 'positional')
+FD_IN_KINDS = ('C', 'C', 'F', 'F', 'strided', 'strided', 'readonly', 'list')
+BAD_KINDS = ('method', 'pad_mode', 'dx', 'out-shape', 'axis', 'spaces')
 CELL_PATTERNS = {1: [[1.0], [0.5], [0.3]],
                  2: [[1.0, 1.0], [0.5, 0.3], [0.3, 1.0]],
                  3: [[1.0, 1.0, 1.0], [0.5, 0.3, 1.0], [0.3, 1.0, 0.5]]}
@@ -181,10 +229,39 @@ def _strategy(draw):
     dtype = draw(st.sampled_from(['float64', 'float64', 'complex128',
                                   'float32', 'complex64']))
     cplx = dtype.startswith('complex')
-    method = draw(st.sampled_from(S.METHODS))
-    mode = draw(st.sampled_from(S.ALL_MODES + ('constant',)))
-    ckind = draw(st.sampled_from(['zero', 'one', 'generic', 'generic',
-                                  'cplx' if cplx else 'generic']))
+    # call styles (strata hit by construction): how the operators are
+    # constructed and how finite_diff is called.  The styles that leave
+    # arguments at their documented defaults need arguments that *are* the
+    # defaults, so those are biased towards them below.
+    ctor = draw(st.sampled_from(CTOR_STYLES))
+    fd_call = draw(st.sampled_from(FD_CALL_STYLES))
+    dflt = 'minimal' in (ctor, fd_call) or ctor == 'from-range'
+
+    def prefer():
+        return dflt and draw(st.sampled_from([True, True, False]))
+
+    if dflt:
+        cell = [1.0 if draw(st.booleans()) else v for v in cell]
+    # grids on which "the cell sides are equal" holds only approximately
+    # (nearly equal sides; all sides tiny): the divisor is the side of the
+    # differentiated axis, whatever the other sides are
+    iso = draw(st.sampled_from(['free', 'free', 'free', 'near', 'tiny'])) \
+        if nd >= 2 else 'free'
+    if iso == 'near':
+        cell = [cell[0]] + [
+            float(cell[0] * (1 + draw(st.sampled_from(
+                [1e-6, -3e-6, 2e-7, 6e-6, -8e-8]))))
+            for _ in range(nd - 1)]
+    elif iso == 'tiny':
+        cell = [draw(st.floats(1e-9, 9e-9)) for _ in range(nd)]
+        mn = [0.0] * nd
+    method = 'forward' if prefer() else \
+        draw(st.sampled_from(S.METHODS))
+    mode = 'constant' if prefer() else \
+        draw(st.sampled_from(S.ALL_MODES + ('constant',)))
+    ckind = 'zero' if prefer() else \
+        draw(st.sampled_from(['zero', 'one', 'generic', 'generic',
+                              'cplx' if cplx else 'generic']))
     if ckind == 'zero':
         c = draw(st.sampled_from([0, 0.0]))
     elif ckind == 'one':
@@ -204,11 +281,19 @@ def _strategy(draw):
     else:
         nob = [[draw(st.booleans()), draw(st.booleans())]
                for _ in range(nd)]
+    # 'minimal' / 'from-range' construction derives the other space, which
+    # is the one on the same grid with the same dtype
+    rng_kind = 'same' if ctor in ('minimal', 'from-range') else \
+        draw(st.sampled_from(['same', 'same', 'astype']))
     return {'shape': shape, 'min': mn, 'cell': cell, 'dtype': dtype,
             'nob': nob, 'method': method, 'mode': mode, 'pad_const': c,
-            'range': draw(st.sampled_from(['same', 'same', 'astype'])),
+            'range': rng_kind,
             'fd_out': draw(st.sampled_from(['none', 'C', 'F', 'strided'])),
             'op_out': draw(st.booleans()),
+            'ctor': ctor, 'fd_call': fd_call,
+            'fd_in': draw(st.sampled_from(FD_IN_KINDS)),
+            'bad': draw(st.sampled_from((None,) * len(BAD_KINDS)
+                                        + BAD_KINDS)),
             'seed': draw(st.integers(0, 2 ** 31 - 1))}
 
 
@@ -283,6 +368,30 @@ def _data(shape, dtype, seed, salt):
     return a.astype(dtype)
 
 
+FD_DEFAULTS = (('dx', 1.0), ('method', 'forward'), ('pad_mode', 'constant'),
+               ('pad_const', 0))
+
+
+def _layout(arr, kind):
+    """The same array values in another memory layout (input of
+    ``finite_diff``: "an N-dimensional array")."""
+    if kind in ('C', 'list'):
+        # ('list' is probed separately at the end of the case)
+        return arr
+    if kind == 'F':
+        return np.asfortranarray(arr)
+    if kind == 'strided':
+        big = np.zeros(tuple(2 * s for s in arr.shape), dtype=arr.dtype)
+        view = big[tuple(slice(1, None, 2) for _ in arr.shape)]
+        view[...] = arr
+        return view
+    if kind == 'readonly':
+        f = arr.copy()
+        f.setflags(write=False)
+        return f
+    raise HarnessError(kind)
+
+
 def _make_out(kind, shape, dtype):
     if kind == 'C':
         out = np.empty(shape, dtype=dtype, order='C')
@@ -309,17 +418,33 @@ def _check_finite_diff(desc, shape, dtype, dxs, region, K, notes):
     size = int(np.prod(shape))
     okind = desc['fd_out']
 
-    def call(arr, axis):
-        kwargs = dict(axis=axis, dx=dxs[axis], method=method, pad_mode=mode,
-                      pad_const=c)
-        if okind == 'none':
-            r = finite_diff(arr, **kwargs)
+    style = desc.get('fd_call', 'kw')
+    in_kind = desc.get('fd_in', 'C')
+    nd = len(shape)
+
+    def call(arr, axis, raw=False):
+        f = arr if raw else _layout(arr, in_kind)
+        out = None if okind == 'none' else _make_out(okind, shape, dt)
+        # the documented "axis" admits the usual negative form
+        ax = axis - nd if style == 'negaxis' else axis
+        if style == 'positional':
+            # documented order: f, axis, dx, method, out, pad_mode, pad_const
+            r = finite_diff(f, ax, dxs[axis], method, out, mode, c)
         else:
-            out = _make_out(okind, shape, dt)
-            r = finite_diff(arr, out=out, **kwargs)
-            if r is not out:
-                raise Violation('C13|out-identity|finite_diff|' + region,
-                                'result is not the out array')
+            kwargs = dict(axis=ax, dx=dxs[axis], method=method,
+                          pad_mode=mode, pad_const=c)
+            if style == 'minimal':
+                # arguments equal to their documented defaults are left out
+                for key, default in FD_DEFAULTS:
+                    if kwargs[key] == default:
+                        del kwargs[key]
+                        notes['fd_default_omitted:' + key] += 1
+            if out is not None:
+                kwargs['out'] = out
+            r = finite_diff(f, **kwargs)
+        if out is not None and r is not out:
+            raise Violation('C13|out-identity|finite_diff|' + region,
+                            'result is not the out array')
         if not isinstance(r, np.ndarray) or r.shape != tuple(shape) or \
                 r.dtype != dt:
             raise Violation('C13|shape-dtype|finite_diff|' + region,
@@ -382,9 +507,9 @@ def _check_finite_diff(desc, shape, dtype, dxs, region, K, notes):
                             'ref {!r}'.format(axis, i, complex(off[i]),
                                               complex(ref_off[i])))
         # generic (complex) data
-        x = _data(shape, dt, desc['seed'], axis)
+        x = _layout(_data(shape, dt, desc['seed'], axis), in_kind)
         xin = x.copy()
-        y = call(x, axis)
+        y = call(x, axis, raw=True)
         if not np.array_equal(x, xin):
             raise Violation('C13|input-modified|' + sig_tail,
                             'finite_diff changed its input')
@@ -487,6 +612,17 @@ def _check_operator(name, op, ref, desc, region, K, eps, cplx, notes,
     # (4) derivative
     point = x
     deriv = op.derivative(point)
+    # ``point`` is optional ("does not change the result"): the derivative
+    # taken without a point is the same map
+    d0 = op.derivative()
+    if d0 is not deriv:
+        if d0.domain != op.domain or d0.range != op.range:
+            raise Violation('C13|derivative|' + sig_tail,
+                            'derivative() has other domain/range')
+        if not np.array_equal(flat.flat(d0(x), op.range),
+                              flat.flat(deriv(x), op.range)):
+            raise Violation('C13|derivative|' + sig_tail,
+                            'derivative() and derivative(point) differ')
     if affine:
         if not deriv.is_linear:
             raise Violation('C13|derivative|' + sig_tail,
@@ -499,6 +635,30 @@ def _check_operator(name, op, ref, desc, region, K, eps, cplx, notes,
                         0 * ref_off, _rowtol(K, eps, RM, 0 * Rb, cplx),
                         name + '.derivative')
         notes['derivative_affine_checked'] += 1
+        if desc['nob'] is not False:
+            notes['adjoint_skipped_boundary_nodes'] += 1
+            return 'affine'
+        # (2)/(3) "the operator returned as adjoint is exactly the transpose
+        # of the operator's matrix": an affine variant either offers no
+        # adjoint (documented: "not linear and has no adjoint") or returns
+        # the linear map M^T - never an affine map and never itself
+        try:
+            adj = op.adjoint
+        except (ValueError, NotImplementedError):
+            # (OpNotImplementedError is a NotImplementedError)
+            notes['affine_adjoint_refused'] += 1
+        else:
+            _check_adjoint(name, op, deriv, adj, got_M, ref_M, RM, Rb, desc,
+                           'C13|adjoint|{}|affine,{}'.format(name, region),
+                           sig_tail, K, eps, cplx, notes, cache)
+            notes['affine_adjoint_returned_checked'] += 1
+        # the adjoint of the derivative (a linear operator in its own right,
+        # reached through this call sequence) is the same transpose
+        _check_adjoint(name + '.derivative', deriv, deriv, deriv.adjoint,
+                       dM, ref_M, RM, Rb, desc,
+                       'C13|adjoint|{}.derivative|{}'.format(name, region),
+                       '{}.derivative|{}'.format(name, region), K, eps, cplx,
+                       notes, cache)
         return 'affine'
     if deriv is not op:
         dM, doff = _opmatrix(deriv, 'C13|derivative|' + sig_tail)
@@ -509,18 +669,30 @@ def _check_operator(name, op, ref, desc, region, K, eps, cplx, notes,
     if desc['nob'] is not False:
         notes['adjoint_skipped_boundary_nodes'] += 1
         return 'linear-noadj'
-    adj = op.adjoint
-    asig = 'C13|adjoint|' + sig_tail
+    _check_adjoint(name, op, op, op.adjoint, got_M, ref_M, RM, Rb, desc,
+                   'C13|adjoint|' + sig_tail, sig_tail, K, eps, cplx, notes,
+                   cache)
+    return 'linear'
+
+
+def _check_adjoint(name, op, lin, adj, got_M, ref_M, RM, Rb, desc, asig,
+                   sig_tail, K, eps, cplx, notes, cache):
+    """``adj`` (returned as adjoint of ``op``) must map range -> domain, be
+    linear, have the matrix ``ref_M^T`` and zero offset, and satisfy the Gram
+    identity with the linear part ``lin`` of ``op`` (matrix ``got_M``)."""
+    mode = desc['mode']
     if adj.domain != op.range or adj.range != op.domain:
         raise Violation('C13|adjoint-spaces|' + sig_tail,
                         'adjoint maps {!r} -> {!r}'.format(adj.domain,
                                                            adj.range))
     if not adj.is_linear:
-        raise Violation('C13|is-linear|{}.adjoint|{}'.format(name, mode),
-                        'adjoint is not flagged linear')
+        raise Violation('C13|is-linear|{}.adjoint|{}'.format(
+            name, mode if lin is op else mode + ',c!=0'),
+            'the operator returned as adjoint is not flagged linear'
+            + (' (it is the operator itself)' if adj is op else ''))
     N, noff = _opmatrix(adj, asig)
     coltol = K * eps * np.abs(ref_M).sum(axis=0) + 1e-300
-    if name == 'Laplacian':
+    if name.startswith('Laplacian'):
         # cancellation-free magnitude (the matrix is symmetric)
         coltol = _rowtol(K, eps, RM, 0 * np.asarray(Rb), cplx)
     _compare_matrix(asig, N, noff, ref_M.T, np.zeros(ref_M.shape[1]),
@@ -542,16 +714,15 @@ def _check_operator(name, op, ref, desc, region, K, eps, cplx, notes,
         for _ in np.arange(2):
             u = flat.unflat(rng.uniform(-1, 1, ref_M.shape[1]), op.domain)
             v = flat.unflat(rng.uniform(-1, 1, ref_M.shape[0]), op.range)
-            a = flat.sinner(op.range, op(u), v)
+            a = flat.sinner(op.range, lin(u), v)
             b = flat.sinner(op.domain, u, adj(v))
-            scale = float(op.range.norm(op(u)) * op.range.norm(v)) + 1e-300
+            scale = float(op.range.norm(lin(u)) * op.range.norm(v)) + 1e-300
             if not abs(a - b) <= 64 * eps * np.sqrt(ref_M.shape[0]) * scale:
                 raise Violation('C13|gram|' + sig_tail,
                                 '<Au,v> = {!r} but <u,A*v> = {!r}'.format(
                                     a, b))
         notes['inner_pairs_checked'] += 1
     notes['adjoint_checked'] += 1
-    return 'linear'
 
 
 def _gram(space, cache):
@@ -564,6 +735,162 @@ def _flat_data(space, seed):
     n = flat.rdim(space)
     rng = np.random.RandomState((int(seed) * 104729 + 17) % (2 ** 32))
     return rng.uniform(-1, 1, size=n) * rng.choice([1.0, 30.0])
+
+
+def _construct(name, style, space, ran, pdom, pran, axis, method, mode, c,
+               notes):
+    """Build one operator in the given construction style.
+
+    explicit    every argument by keyword
+    positional  every argument by position, in the documented order
+    minimal     every argument that equals its documented default is left
+                out (range=None, method='forward', pad_mode='constant',
+                pad_const=0)
+    from-range  like minimal, but Gradient / Divergence get only ``range=``
+                and derive their domain from it
+    """
+    cls = {'PartialDerivative': PartialDerivative, 'Gradient': Gradient,
+           'Divergence': Divergence, 'Laplacian': Laplacian}[name]
+    has_method = name != 'Laplacian'
+    dom, rng = ((pdom, ran) if name == 'Divergence' else
+                (space, pran) if name == 'Gradient' else (space, ran))
+    if style == 'positional':
+        args = [dom] + ([axis] if name == 'PartialDerivative' else []) + \
+            [rng] + ([method] if has_method else []) + [mode, c]
+        return cls(*args)
+    kwargs = {'pad_mode': mode, 'pad_const': c}
+    if has_method:
+        kwargs['method'] = method
+    if name == 'PartialDerivative':
+        kwargs['axis'] = axis
+    if style == 'explicit':
+        return cls(domain=dom, range=rng, **kwargs)
+    if style not in ('minimal', 'from-range'):
+        raise HarnessError(style)
+    for key, default in (('method', 'forward'), ('pad_mode', 'constant'),
+                         ('pad_const', 0)):
+        if key in kwargs and kwargs[key] == default:
+            del kwargs[key]
+            notes['op_default_omitted:' + key] += 1
+    notes['op_space_derived'] += 1
+    if style == 'from-range' and name in ('Gradient', 'Divergence'):
+        return cls(range=rng, **kwargs)
+    return cls(dom, **kwargs)
+
+
+REFUSALS = (ValueError, TypeError, IndexError, KeyError, NotImplementedError)
+
+
+def _probe_refusals(kind, desc, space, shape, dt, dxs, notes):
+    """One argument outside the documented set: the call must not return a
+    result (the documentation lists the admissible values; a silently
+    accepted one yields an array that is no finite difference at all)."""
+    nd = len(shape)
+    if min(shape) < 2:
+        return
+    method, mode, c = desc['method'], desc['mode'], desc['pad_const']
+    pick = int(desc['seed'])
+    zero = np.zeros(shape, dtype=dt)
+    good = dict(axis=pick % nd, dx=dxs[pick % nd], method=method,
+                pad_mode=mode, pad_const=c)
+    pspace = odl.ProductSpace(space, nd)
+    calls = []
+    if kind == 'method':
+        # the set is {'forward', 'backward', 'central'}
+        badm = ['upwind', 'centre', '', 'forward_adjoint'][pick % 4]
+        calls = [('finite_diff', lambda: finite_diff(zero, **dict(
+                      good, method=badm))),
+                 ('PartialDerivative', lambda: PartialDerivative(
+                     space, 0, method=badm, pad_mode=mode)),
+                 ('Gradient', lambda: Gradient(space, method=badm,
+                                               pad_mode=mode)),
+                 ('Divergence', lambda: Divergence(range=space, method=badm,
+                                                   pad_mode=mode))]
+    elif kind == 'pad_mode':
+        badp = ['reflect', 'edge', 'constant_adjoint', 'order3'][pick % 4]
+        calls = [('finite_diff', lambda: finite_diff(zero, **dict(
+                      good, pad_mode=badp))),
+                 ('PartialDerivative', lambda: PartialDerivative(
+                     space, 0, method=method, pad_mode=badp)),
+                 ('Gradient', lambda: Gradient(space, method=method,
+                                               pad_mode=badp)),
+                 ('Divergence', lambda: Divergence(range=space, method=method,
+                                                   pad_mode=badp)),
+                 ('Laplacian', lambda: Laplacian(space, pad_mode=badp))]
+    elif kind == 'dx':
+        # "distance between sampling points"
+        badx = [0.0, -good['dx'], float('nan'), -0.0][pick % 4]
+        calls = [('finite_diff', lambda: finite_diff(zero, **dict(
+                      good, dx=badx)))]
+    elif kind == 'out-shape':
+        # "has to have the same shape as the input array"
+        oshape = list(shape)
+        oshape[(pick // 2) % nd] += 1 if pick % 2 else -1
+        out = np.zeros(oshape, dtype=dt)
+        calls = [('finite_diff', lambda: finite_diff(zero, out=out, **good))]
+    elif kind == 'axis':
+        bada = nd if pick % 2 else -nd - 1
+        calls = [('finite_diff', lambda: finite_diff(zero, **dict(
+                      good, axis=bada)))]
+    elif kind == 'spaces':
+        # "either domain or range must be specified", range / domain a power
+        # space of length ndim of a discretized space
+        wrong = odl.ProductSpace(space, nd + 1)
+        calls = [('Gradient', lambda: Gradient()),
+                 ('Divergence', lambda: Divergence()),
+                 ('Gradient', lambda: Gradient(space, range=wrong)),
+                 ('Divergence', lambda: Divergence(domain=wrong,
+                                                   range=space)),
+                 ('Gradient', lambda: Gradient(space, range=space)),
+                 ('Divergence', lambda: Divergence(domain=space)),
+                 ('PartialDerivative', lambda: PartialDerivative(pspace, 0)),
+                 ('Laplacian', lambda: Laplacian(pspace))]
+    else:
+        raise HarnessError(kind)
+    for site, fn in calls:
+        try:
+            fn()
+        except REFUSALS:
+            notes['refusal_checked'] += 1
+            continue
+        raise Violation('C13|refusal|{}|{}'.format(site, kind),
+                        'an argument outside the documented set was '
+                        'accepted ({})'.format(kind))
+
+
+def _probe_array_like(desc, shape, dt, dxs, K, notes):
+    """``f : array-like``: a nested list of Python numbers is differentiated
+    like the array it denotes."""
+    method, mode, c = desc['method'], desc['mode'], desc['pad_const']
+    for axis in range(len(shape)):
+        n = shape[axis]
+        if n < S.min_size(mode):
+            continue
+        x = _data(shape, dt, desc['seed'], 31 + axis)
+        lst = x.tolist()
+        arr = np.asarray(lst)
+        sig = 'C13|array-like|finite_diff|list'
+        try:
+            y = finite_diff(lst, axis=axis, dx=dxs[axis], method=method,
+                            pad_mode=mode, pad_const=c)
+        except (AttributeError, TypeError) as e:
+            raise Violation(sig, 'finite_diff(<nested list>) raised {}: {}'
+                            ''.format(type(e).__name__, e))
+        if not isinstance(y, np.ndarray) or y.shape != tuple(shape) or \
+                y.dtype != arr.dtype:
+            raise Violation(sig, 'returned {!r}'.format(
+                (type(y).__name__, getattr(y, 'shape', None),
+                 getattr(y, 'dtype', None))))
+        M, b = S.partial_matrix(tuple(shape), axis, method, mode)
+        ref = S.finite_diff(arr, axis, dxs[axis], method, mode, c)
+        mag = ((np.abs(M) @ np.abs(arr).ravel().astype(float))
+               + np.abs(c) * np.abs(b)).reshape(shape) / dxs[axis]
+        bad = np.abs(y - ref) > K * _eps(arr.dtype) * mag + 1e-300
+        if np.any(bad):
+            idx = tuple(int(v) for v in np.argwhere(bad)[0])
+            raise Violation(sig, 'entry {} got {!r} ref {!r}'.format(
+                idx, y[idx], complex(ref[idx])))
+        notes['array_like_checked'] += 1
 
 
 # --------------------------------------------------------------------------
@@ -640,12 +967,30 @@ def run_case(desc):
     n_eval = _check_finite_diff(desc, shape, dt, dxs, region, K, notes)
 
     # ---- operators ---------------------------------------------------------
+    ctor = desc.get('ctor', 'explicit')
+    if ctor in ('minimal', 'from-range') and ran is not space:
+        raise HarnessError('derived spaces need range == domain')
+    pdom = odl.ProductSpace(space, nd)
+    pran = odl.ProductSpace(ran, nd)
+
+    def make(name, axis=None):
+        op = _construct(name, ctor, space, ran, pdom, pran, axis, method,
+                        mode, c, notes)
+        # documented: a missing range/domain is the one on the same grid
+        # (``range == domain``, ``ProductSpace(domain, ndim)``, ``range[0]``)
+        dom_exp = pdom if name == 'Divergence' else space
+        ran_exp = pran if name == 'Gradient' else ran
+        if op.domain != dom_exp or op.range != ran_exp:
+            raise Violation('C13|ctor-spaces|{}|{}'.format(name, ctor),
+                            'constructed {!r} -> {!r}, expected {!r} -> {!r}'
+                            ''.format(op.domain, op.range, dom_exp, ran_exp))
+        return op
+
     kinds = []
     for axis in range(nd):
         n = shape[axis]
         preg = '{},{},n={}'.format(method, mode, _sizeclass(n))
-        op = PartialDerivative(space, axis=axis, range=ran, method=method,
-                               pad_mode=mode, pad_const=c)
+        op = make('PartialDerivative', axis)
         if axis in short_axes:
             _expect_rejected(op, 'PartialDerivative', preg, mode, n, notes)
             continue
@@ -656,11 +1001,8 @@ def run_case(desc):
         kinds.append(_check_operator('PartialDerivative', op, ref, desc,
                                      preg, K, eps, cplx, notes, cache))
 
-    pran = odl.ProductSpace(ran, nd)
-    grad = Gradient(space, range=pran, method=method, pad_mode=mode,
-                    pad_const=c)
-    div = Divergence(domain=odl.ProductSpace(space, nd), range=ran,
-                     method=method, pad_mode=mode, pad_const=c)
+    grad = make('Gradient')
+    div = make('Divergence')
     if short_axes:
         _expect_rejected(grad, 'Gradient', region, mode, nshort, notes)
         _expect_rejected(div, 'Divergence', region, mode, nshort, notes)
@@ -680,7 +1022,7 @@ def run_case(desc):
     lreg = '{},n={}'.format(mode, _sizeclass(nmin))
     if mode not in S.LAPLACIAN_MODES:
         try:
-            Laplacian(space, range=ran, pad_mode=mode, pad_const=c)
+            make('Laplacian')
         except ValueError:
             notes['laplacian_mode_rejected'] += 1
         else:
@@ -688,7 +1030,7 @@ def run_case(desc):
                             'mode documented as not implemented was '
                             'accepted')
     else:
-        lap = Laplacian(space, range=ran, pad_mode=mode, pad_const=c)
+        lap = make('Laplacian')
         if short_axes:
             _expect_rejected(lap, 'Laplacian', lreg, mode, nshort, notes)
         else:
@@ -703,6 +1045,15 @@ def run_case(desc):
             kinds.append(_check_operator('Laplacian', lap, ref, desc, lreg,
                                          K, eps, cplx, notes, cache))
 
+    # ---- inadmissible arguments are refused -----------------------------------
+    bad = desc.get('bad')
+    if bad is not None:
+        _probe_refusals(bad, desc, space, shape, dt, dxs, notes)
+
+    # ---- array-like input (last: region of a known finding) ------------------
+    if desc.get('fd_in', 'C') == 'list':
+        _probe_array_like(desc, shape, dt, dxs, K, notes)
+
     # ---- outcome ------------------------------------------------------------
     strata = ['mode:' + mode, 'method:' + method, 'ndim:{}'.format(nd),
               'dtype:' + dtype, 'nmin:' + _sizeclass(nmin),
@@ -714,7 +1065,25 @@ def run_case(desc):
                          else 'nonunit'),
               'nob:' + ('no' if nob is False else 'yes'),
               'range:' + range_kind, 'fd_out:' + desc['fd_out'],
-              'op_out:' + str(bool(desc['op_out']))]
+              'op_out:' + str(bool(desc['op_out'])),
+              'ctor:' + ctor, 'fd_call:' + desc.get('fd_call', 'kw'),
+              'fd_in:' + desc.get('fd_in', 'C'),
+              'refusal:' + str(bad if notes['refusal_checked'] else None)]
+    if notes['affine_adjoint_refused']:
+        strata.append('affine-adjoint:refused')
+    if notes['affine_adjoint_returned_checked']:
+        strata.append('affine-adjoint:returned')
+    for key in ('dx', 'method', 'pad_mode', 'pad_const'):
+        if notes['fd_default_omitted:' + key]:
+            strata.append('fd-default-omitted:' + key)
+        if notes['op_default_omitted:' + key]:
+            strata.append('op-default-omitted:' + key)
+    if nd >= 2 and len(set(dxs)) > 1:
+        rel = max(abs(dxs[a] - dxs[0]) for a in range(nd)) / max(dxs)
+        if rel < 1e-5:
+            strata.append('cells:nearly-equal')
+        if max(dxs) < 1e-8:
+            strata.append('cells:tiny-unequal')
     if affine:
         strata.append('affine')
     if short_axes:
@@ -747,4 +1116,15 @@ REQUIRED_STRATA = (['mode:' + m for m in S.ALL_MODES] +
                    ['ndim:1', 'ndim:2', 'ndim:3', 'nmin:2', 'nmin:3',
                     'nmin:4', 'nmin:5+', 'affine', 'short-axis-rejected',
                     'nob:yes', 'range:astype', 'op_out:True', 'fd_out:F',
-                    'dtype:complex64', 'pad_const:complex'])
+                    'dtype:complex64', 'pad_const:complex',
+                    'affine-adjoint:refused', 'affine-adjoint:returned',
+                    'ctor:minimal', 'ctor:from-range', 'ctor:positional',
+                    'fd_call:minimal', 'fd_call:negaxis',
+                    'fd_call:positional', 'fd_in:F', 'fd_in:strided',
+                    'fd_in:readonly', 'cells:nearly-equal',
+                    'cells:tiny-unequal'] +
+                   ['refusal:' + k for k in BAD_KINDS] +
+                   ['fd-default-omitted:' + k
+                    for k in ('dx', 'method', 'pad_mode', 'pad_const')] +
+                   ['op-default-omitted:' + k
+                    for k in ('method', 'pad_mode', 'pad_const')])
